@@ -10,7 +10,7 @@ use serde_json::{json, Value};
 
 use crate::{engine::Ctx, observe::guarded};
 
-pub const PIECES: [&str; 6] = ["", "a", "\n", "é", "b\n", "𝒳"];
+pub const PIECES: [&str; 7] = ["", "a", "\n", "é", "b\n", "𝒳", "\nc"];
 
 #[derive(Clone)]
 pub struct St {
